@@ -2,6 +2,7 @@ package rules
 
 import (
 	"go/ast"
+	"go/token"
 	"go/types"
 	"strings"
 
@@ -17,6 +18,10 @@ func init() {
 			"registry insertions are paired with the subscription counter, TriggerCountInc with initialized.Store(true); the trigger id derives from the input hash and the headers hash; Source.Start has one call site, under a detached context, with tear-down on its error edge; " +
 			"sources call Done() after every Error()/Complete(). It does not decide that the counters return to zero for every history.",
 		Mutants: []Mutant{
+			{Name: "late Done() detaches whatever trigger has the id (the repaired defect F14)", File: resolveGo, Rule: "C13-R8", Key: "Resolver.doneTriggerFromUpdater/detach-own-trigger-only",
+				Old: "\tif trig, ok := r.triggers[triggerID]; !ok || trig.updater != updater {\n\t\tr.mu.Unlock()\n\t\treturn\n\t}\n", New: ""},
+			{Name: "start goroutine marks whatever trigger has the id initialized", File: resolveGo, Rule: "C13-R8", Key: "Resolver.markTriggerInitialized/mark-initialized-own-trigger-only",
+				Old: "\tif !ok || trig != started {\n\t\treturn\n\t}\n\ttrig.initialized.Store(true)", New: "\tif !ok {\n\t\treturn\n\t}\n\ttrig.initialized.Store(true)"},
 			{Name: "trigger cancel and closeSubs moved inside Resolver.mu in UnsubscribeSubscription", File: resolveGo, Rule: "C13-R2", Key: "UnsubscribeSubscription",
 				Old: "\tr.mu.Unlock()\n\tcloseSubs(res.toClose)\n\tif res.triggerCancel != nil {\n\t\tres.triggerCancel()\n\t}\n\treturn nil",
 				New: "\tcloseSubs(res.toClose)\n\tif res.triggerCancel != nil {\n\t\tres.triggerCancel()\n\t}\n\tr.mu.Unlock()\n\treturn nil"},
@@ -44,6 +49,7 @@ func init() {
 }
 
 func runC13(r *fw.Run) {
+	defer c13OwnTrigger(r)
 	p := r.Prog
 	la := subsLockAnalysis(r)
 	info := p.Pkg("resolve").TypesInfo
@@ -913,4 +919,131 @@ func sortStrings(s []string) []string {
 		}
 	}
 	return out
+}
+
+// c13OwnTrigger (R8): triggers are registered under an id that is re-used (it is the hash of input and headers), so a
+// callback that arrives late — subscriptionUpdater.Done() after the trigger was already removed, or the start goroutine of a
+// trigger that was removed while Source.Start was still running — must not act on whatever trigger is registered under that
+// id NOW. The Resolver methods through which these callbacks detach a trigger or mark it initialized compare the identity
+// of the trigger they looked up (its updater, or the trigger itself) with the caller's before the effect.
+func c13OwnTrigger(r *fw.Run) {
+	p := r.Prog
+	r.Rule("C13-R8", "the Resolver methods through which a data source callback (subscriptionUpdater.Done) or the start goroutine detaches a trigger or marks it initialized act only after comparing the identity of the trigger found under the id with the caller's own (trigger.updater / trigger pointer against a parameter)")
+	info := p.Pkg("resolve").TypesInfo
+	// callers: subscriptionUpdater.Done and the goroutine literal(s) of the function that calls Source.Start
+	callers := []ast.Node{}
+	if fi := p.Func("resolve", "subscriptionUpdater.Done"); fi != nil {
+		callers = append(callers, fi.Decl.Body)
+	} else {
+		r.Error("C13-R8: subscriptionUpdater.Done not found")
+	}
+	for _, fi := range p.Funcs("resolve") {
+		fw.WalkAll(fi.Decl.Body, func(nd ast.Node) bool {
+			gs, ok := nd.(*ast.GoStmt)
+			if !ok {
+				return true
+			}
+			lit, ok := gs.Call.Fun.(*ast.FuncLit)
+			if !ok {
+				return true
+			}
+			starts := false
+			fw.WalkAll(lit.Body, func(m ast.Node) bool {
+				if c, ok := m.(*ast.CallExpr); ok && fw.CallIs(info, c, "resolve", "SubscriptionDataSource.Start") {
+					starts = true
+				}
+				return true
+			})
+			if starts {
+				callers = append(callers, lit.Body)
+			}
+			return true
+		})
+	}
+	targets := map[*types.Func]bool{}
+	for _, body := range callers {
+		fw.WalkAll(body, func(nd ast.Node) bool {
+			if c, ok := nd.(*ast.CallExpr); ok {
+				if fn := fw.Callee(info, c); fn != nil {
+					if sig, _ := fn.Type().(*types.Signature); sig != nil && sig.Recv() != nil && fw.RecvName(sig.Recv().Type()) == "Resolver" {
+						targets[fn] = true
+					}
+				}
+			}
+			return true
+		})
+	}
+	isEffect := func(c *ast.CallExpr) string {
+		if fw.CallIs(info, c, "resolve", "Resolver.detachTriggerLocked") {
+			return "detach"
+		}
+		if sel, ok := ast.Unparen(c.Fun).(*ast.SelectorExpr); ok && sel.Sel.Name == "Store" && fw.IsFieldSel(info, sel.X, "resolve", "trigger", "initialized") {
+			return "mark-initialized"
+		}
+		return ""
+	}
+	n := 0
+	for fn := range targets {
+		fi := p.FuncOf(fn)
+		if fi == nil {
+			continue
+		}
+		has := false
+		fw.WalkAll(fi.Decl.Body, func(nd ast.Node) bool {
+			if c, ok := nd.(*ast.CallExpr); ok && isEffect(c) != "" {
+				has = true
+			}
+			return true
+		})
+		if !has {
+			continue
+		}
+		sig := fn.Type().(*types.Signature)
+		params := map[types.Object]bool{}
+		for i := 0; i < sig.Params().Len(); i++ {
+			params[sig.Params().At(i)] = true
+		}
+		isOwn := func(e ast.Expr) bool { // the caller's identity: a parameter (updater / trigger), possibly a field of it
+			o := fw.RootObj(info, e)
+			return o != nil && params[o]
+		}
+		isFound := func(e ast.Expr) bool { // identity of the trigger found in the registry: X.updater, or a *trigger value that is not a parameter
+			e = ast.Unparen(e)
+			if fw.IsFieldSel(info, e, "resolve", "trigger", "updater") {
+				return !isOwn(e)
+			}
+			if t := info.TypeOf(e); t != nil && fw.TypeIs(t, "resolve", "trigger") {
+				return !isOwn(e)
+			}
+			return false
+		}
+		in := fw.NewInterp(fi)
+		in.H = fw.Hooks{
+			Cond: func(e ast.Expr, branch bool, st *fw.State) {
+				be, ok := ast.Unparen(e).(*ast.BinaryExpr)
+				if !ok || (be.Op != token.EQL && be.Op != token.NEQ) {
+					return
+				}
+				if (be.Op == token.EQL) != branch {
+					return
+				}
+				if (isFound(be.X) && isOwn(be.Y)) || (isFound(be.Y) && isOwn(be.X)) {
+					st.Set("own-trigger")
+				}
+			},
+			Node: func(nd ast.Node, st *fw.State) {
+				c, ok := nd.(*ast.CallExpr)
+				if !ok || !in.Final() {
+					return
+				}
+				if eff := isEffect(c); eff != "" {
+					n++
+					r.Check(st.Must("own-trigger"), "C13-R8", fi.Name()+"/"+eff+"-own-trigger-only", p.Pos(c.Pos()), fi.Name()+" "+eff+"s only the caller's own trigger",
+						"the trigger is looked up by id and "+eff+"ed without comparing it with the caller's: the id is the hash of input and headers and is re-used, so a late callback of a trigger that was already removed (the source calls Done() after its context was cancelled; Start returns after the last subscriber left) tears down, or counts, the NEW trigger that another subscriber registered under the same id — that subscriber is closed without Complete and its upstream is cancelled")
+				}
+			},
+		}
+		in.Run(nil)
+	}
+	r.Expect("C13-R8", "detach / mark-initialized effects reachable from late callbacks", n, 2)
 }
